@@ -35,6 +35,7 @@ type Expr struct {
 	Name string  // ident name, field name, call name, operator, quantifier kind
 	Args []*Expr // operands
 	Vars []QVar  // quantifier variables
+	Trig []*Expr // optional trigger terms of a quantifier: forall x T {f(x), g(x)} :: body
 	Pos  int
 }
 
@@ -324,7 +325,7 @@ func (ps *parser) primary() *Expr {
 					if q.kind == "eof" {
 						ps.fail("unterminated quantifier")
 					}
-					if depth == 0 && q.kind == "op" && (q.text == "," || q.text == "::") {
+					if depth == 0 && q.kind == "op" && (q.text == "," || q.text == "::" || q.text == "{") {
 						break
 					}
 					if q.kind == "op" && (q.text == "[" || q.text == "(") {
@@ -343,6 +344,19 @@ func (ps *parser) primary() *Expr {
 				}
 				break
 			}
+			var trig []*Expr
+			if ps.isOp("{") {
+				ps.next()
+				for {
+					trig = append(trig, ps.expr(0))
+					if ps.isOp(",") {
+						ps.next()
+						continue
+					}
+					break
+				}
+				ps.expect("}")
+			}
 			ps.expect("::")
 			body := ps.expr(0)
 			// variables sharing a type: "forall i, j int" gives i an empty type
@@ -351,7 +365,7 @@ func (ps *parser) primary() *Expr {
 					vars[i].Type = vars[i+1].Type
 				}
 			}
-			return &Expr{Kind: EQuant, Name: t.text, Vars: vars, Args: []*Expr{body}, Pos: t.pos}
+			return &Expr{Kind: EQuant, Name: t.text, Vars: vars, Trig: trig, Args: []*Expr{body}, Pos: t.pos}
 		}
 		return &Expr{Kind: EIdent, Name: t.text, Pos: t.pos}
 	case "op":
